@@ -10,4 +10,4 @@ func generate(c *runCfg) error {
 
 var generators = map[string]func(*runCfg) error{}
 
-func scanGlobals(c *runCfg) int { return 0 }
+
